@@ -146,6 +146,14 @@ pub struct BM25Index<T: Tokenizer + Clone> {
     /// they only take the shared side — and this is the first lock a mutation
     /// acquires, so it never nests inside a DashMap shard guard.
     mutation_gate: RwLock<()>,
+
+    /// Ids whose [`remove`](BM25Index::remove) was given text that did not
+    /// account for every token they were indexed under, so stale posting
+    /// entries for them may remain. Those are invisible only while the id
+    /// stays out of `doc_tokens`; [`insert`](BM25Index::insert) sweeps them
+    /// before re-admitting the id. In-memory only: loading prunes stale
+    /// entries on its own.
+    incomplete_removals: DashMap<u64, ()>,
 }
 
 #[derive(Default)]
@@ -413,6 +421,7 @@ where
             search_count: AtomicU64::new(0),
             last_saved_version: AtomicU64::new(0),
             mutation_gate: RwLock::new(()),
+            incomplete_removals: DashMap::new(),
         }
     }
 
@@ -478,6 +487,7 @@ where
             // with an empty `doc_tokens` until then.
             total_tokens: AtomicU64::new(0),
             mutation_gate: RwLock::new(()),
+            incomplete_removals: DashMap::new(),
         })
     }
 
@@ -767,6 +777,15 @@ where
     ///
     /// Safe to call concurrently with other `insert`/`remove`/`search` calls.
     pub fn insert(&self, id: u64, text: &str, now_ms: u64) -> Result<(), BM25Error> {
+        // A previous `remove` of this id with non-original text may have left
+        // posting entries behind. Once the id is back in `doc_tokens` every one
+        // of them would match again and return the document for terms its new
+        // text does not contain, so sweep them out first (as `purge_ids` does
+        // for ids whose text is lost).
+        if self.incomplete_removals.remove(&id).is_some() && !self.doc_tokens.contains_key(&id) {
+            self.purge_ids(&BTreeSet::from([id]), now_ms);
+        }
+
         // Shared with other mutations, exclusive against `compact_buckets`.
         anda_db_utils::verif_await_read!(self.mutation_gate);
         let _mutation_guard = self.mutation_gate.read();
@@ -983,6 +1002,9 @@ where
         let mut buckets_to_update: FxHashMap<u32, FxHashMap<String, usize>> = FxHashMap::default();
         // Remove from inverted index
         let mut maybe_empty_tokens: Vec<String> = Vec::new();
+        // Sum of the term frequencies actually dropped from posting lists;
+        // compared below with the token count recorded at insert time.
+        let mut removed_freq: usize = 0;
         for (token, _) in token_freqs {
             if let Some(mut posting) = self.postings.get_mut(&token) {
                 // Remove every entry for this document. Duplicates can exist
@@ -995,6 +1017,7 @@ where
                 if removed_vals.is_empty() {
                     continue;
                 }
+                removed_freq += removed_vals.iter().map(|(_, freq)| *freq).sum::<usize>();
 
                 let size_decrease = if posting.1.is_empty() {
                     maybe_empty_tokens.push(token.clone());
@@ -1078,6 +1101,13 @@ where
                 m.stats.last_deleted = now_ms;
                 m.stats.delete_count += 1;
             });
+        }
+
+        // The supplied text did not account for every token the document was
+        // indexed under (it was not the original text): remember the id so a
+        // later `insert` of it sweeps the entries left behind.
+        if removed_tokens.is_some_and(|tokens| tokens != removed_freq) {
+            self.incomplete_removals.insert(id, ());
         }
 
         was_present
